@@ -113,6 +113,15 @@ func Minimise(t *testing.T, spec RunSpec, v *Verdict) (RunSpec, *Verdict, int) {
 	reduce()
 	cur = withVals(cur, vals)
 
+	// 4a. restrict non-default map orders to the sites that were actually permuted
+	if cur.Sim.MapPerm && cur.Sim.MapSites == nil && len(curV.MapSites) > 0 {
+		c := cur.clone()
+		c.Sim.MapSites = siteList(curV.MapSites)
+		if vv := try(withVals(c, vals)); vv != nil {
+			cur = withVals(c, vals)
+			curV = vv
+		}
+	}
 	// 4. structure-aware passes
 	if sh := shrinkers[spec.Property]; sh != nil {
 		for round := 0; round < 3 && runs < minimiseBudget; round++ {
